@@ -16,6 +16,10 @@ func hs(pkg string, tagsBoth bool, w int, names ...string) []H {
 
 var smokeConform = []H{{Pkg: "ecs", Fn: "HSmoke"}}
 
+// stdConform: translator validation run by every check (engine log == native log).
+var stdConform = []H{{Pkg: "ecs", Fn: "HSmoke"}, {Pkg: "ecs", Fn: "HConf_Prefixes"}, {Pkg: "ecs", Fn: "HConf_Append"}, {Pkg: "ecs", Fn: "HConf_Batch"}, {Pkg: "ecs", Fn: "HConf_Events"},
+	{Pkg: "ecs", Fn: "HConf_Prefixes", Tags: "tiny"}, {Pkg: "ecs", Fn: "HConf_Batch", Tags: "tiny"}}
+
 var props = []Prop{
 	{
 		ID:    "C04",
@@ -23,7 +27,7 @@ var props = []Prop{
 		Harnesses: hs("ecs", true, 1, "HC04_Get", "HC04_Set", "HC04_Not", "HC04_AndOrXor", "HC04_Contains", "HC04_ContainsAny",
 			"HC04_IsZeroReset", "HC04_TotalBitsSet", "HC04_All", "HC04_MaskMatches", "HC04_MaskFilter", "HC04_Without", "HC04_Exclusive", "HC04_Equality"),
 		Extra: append(hs("filter", true, 1, "HC04_Leaves", "HC04_LeafSemantics"), H{Pkg: "filter", Fn: "HC04_Logic"}, H{Pkg: "filter", Fn: "HC04_Logic", Tags: "tiny", Tier: "thorough"}),
-		Conform: smokeConform,
+		Conform: stdConform,
 		Bounds:  "masks and ids fully symbolic (all 2^256 / 2^64 masks, all 256 / 64 ids); All/Without with at most 4/3 ids; logic filters nested to depth 2 (all shapes) and depth 3 (spines)",
 		Outside: "All() with more than 4 ids; logic nesting deeper than 3; tiny build behaviour for ids >= 64",
 	},
@@ -32,14 +36,14 @@ var props = []Prop{
 		Level: "model_checking",
 		Harnesses: append(hs("ecs", true, 4, "HC12_Subscribes", "HC12_SubscriptionBits"),
 			append(hs("listener", true, 4, "HC12_ListenerCopy", "HC12_Callback"), H{Pkg: "listener", Fn: "HC12_Dispatch"}, H{Pkg: "listener", Fn: "HC12_Dispatch", Tags: "tiny", Tier: "thorough"}, H{Pkg: "ecs", Fn: "HC12_World"})...),
-		Conform: smokeConform,
+		Conform: stdConform,
 		Bounds:  "(a) subscribes()/listener copy/subscription bits: all triggers, masks, nil-ness and relation ids (complete); Dispatch: 3 sub-listeners with symbolic (S,C), three construction orders, one symbolic event; (b) world level: a listener with fully symbolic subscription mask S and a symbolic component restriction C (or none) installed after 2 (thorough 5) prefixes, one operation out of the single-entity (11 kinds), batch (5 families with Q variants) and removal/retarget families with every legal argument: every predicted full event (C11 oracle) is delivered iff the documented rule selects it, with exact content",
 		Outside: "Dispatch with more than 3 sub-listeners",
 	},
 	{
 		ID: "C01",
 		Harnesses: []H{{Pkg: "ecs", Fn: "HC01_Step"}, {Pkg: "ecs", Fn: "HC01_Step", Tags: "tiny"}, {Pkg: "ecs", Fn: "HC08_Batch"}, {Pkg: "ecs", Fn: "HC01_Two", Tier: "thorough", Minutes: 60}},
-		Conform: []H{{Pkg: "ecs", Fn: "HSmoke"}, {Pkg: "ecs", Fn: "HConf_Prefixes"}, {Pkg: "ecs", Fn: "HConf_Prefixes", Tags: "tiny"}},
+		Conform: stdConform,
 		Bounds:  "8 scripted prefixes (fresh, two tables, mixed sizes incl. zero-sized, two relation parents, dead target, retired table, recycled ids depth 3, two relation types) x 1 symbolic operation out of 11 kinds with every legal argument choice (entity, add/remove subsets of 6 component types, target) x 3 configurations (quick) / 24 (thorough: 4 ID profiles x capacity increments 1..3 x relation increments 1..2); thorough adds all pairs of two operations on 2 profiles; payload words fully symbolic; at most 10 entities",
 		Outside: "histories longer than prefix+2 operations; more than 10 entities; component types other than the 6 of the universe; capacity increments > 3",
 	},
@@ -47,35 +51,35 @@ var props = []Prop{
 		ID: "C02",
 		Harnesses: []H{{Pkg: "ecs", Fn: "HC02_PoolGet"}, {Pkg: "ecs", Fn: "HC02_PoolRecycle"}, {Pkg: "ecs", Fn: "HC02_PoolRecycleWrap"}, {Pkg: "ecs", Fn: "HC02_IntPool", W: 4},
 			{Pkg: "ecs", Fn: "HC02_World"}, {Pkg: "ecs", Fn: "HC02_World", Tags: "tiny", Tier: "thorough"}},
-		Conform: []H{{Pkg: "ecs", Fn: "HSmoke"}, {Pkg: "ecs", Fn: "HConf_Prefixes"}},
+		Conform: stdConform,
 		Bounds:  "(a) entityPool.Get/Recycle one-step lemmas from an arbitrary well-formed pool: up to 6 slots, every free-list shape, fully symbolic 32-bit generations (bounded claim: generations < 2^32-1; the unbounded variant HC02_PoolRecycleWrap exposes the wrap-around, a known finding), two ghost handles; intPool histories to depth 6; (b) world level: 3 prefixes (fresh / populated / free-list depth 3 with mixed generations) x 2 (thorough 3) operations out of NewEntity, NewBatch/NewBatchQ (symbolic count 1..4), RemoveEntity, Batch.RemoveEntities, Reset; 3 configurations",
 		Outside: "pools with more than 6 slots in the lemmas (the code is uniform in the slot count); generation wrap-around after 2^32 recycles of one id (known finding); more than 10 entities at world level",
 	},
 	{
 		ID: "C08",
 		Harnesses: []H{{Pkg: "ecs", Fn: "HC08_Batch"}, {Pkg: "ecs", Fn: "HC08_Batch", Tags: "tiny", Tier: "thorough"}},
-		Conform: []H{{Pkg: "ecs", Fn: "HSmoke"}, {Pkg: "ecs", Fn: "HConf_Prefixes"}},
+		Conform: stdConform,
 		Bounds:  "8 scripted prefixes x 1 symbolic batch operation (Batch.Add/Remove/Exchange, Relations.ExchangeBatch, Batch.SetRelation / Relations.SetBatch, Batch.RemoveEntities, Builder.NewBatch with count 1..3, target, component values; each with its Q variant) through 8 filter kinds (All, mask, without, exclusive, relation filters with every issued handle or zero as target) with every (add, remove) argument pair legal for all matching entities (quick: at most two components change) x 3 configurations (thorough: 24); oracle = documented single-entity effect applied to every entity matching at call time",
 		Outside: "two or more batch operations in a row; more than 10 entities; batch counts > 3",
 	},
 	{
 		ID: "C03",
 		Harnesses: []H{{Pkg: "ecs", Fn: "HC03_Query"}, {Pkg: "ecs", Fn: "HC03_BatchQuery"}, {Pkg: "ecs", Fn: "HC03_Query", Tags: "tiny", Tier: "thorough"}},
-		Conform: []H{{Pkg: "ecs", Fn: "HSmoke"}, {Pkg: "ecs", Fn: "HConf_Prefixes"}},
+		Conform: stdConform,
 		Bounds:  "10 scripted prefixes (thorough: + one symbolic legal operation) x 8 filter kinds (All, mask, without, exclusive, relation filters with every issued handle / zero as target), plain and registered; per query: full iteration against the model, Count, EntityAt(i) for a fully symbolic 64-bit i, j Next calls followed by Step(s) for a fully symbolic 64-bit s; batch-result queries of ExchangeQ / SetRelationQ / NewBatchQ with all legal arguments: Count, EntityAt for every index, iteration, symbolic EntityAt / Step within the int32 range; 3 configurations (thorough 24)",
 		Outside: "logic-combination filters at world level (their Matches is decided in C04; queries only call Matches); more than 10 entities; relation filters nested inside other filters (documented as unsupported)",
 	},
 	{
 		ID: "C05",
 		Harnesses: []H{{Pkg: "ecs", Fn: "HC05_Rel"}, {Pkg: "ecs", Fn: "HC05_Rel", Tags: "tiny", Tier: "thorough"}},
-		Conform: []H{{Pkg: "ecs", Fn: "HSmoke"}, {Pkg: "ecs", Fn: "HConf_Prefixes"}},
+		Conform: stdConform,
 		Bounds:  "6 relation prefixes (two parents, dead target with children, retired table, two relation types, dead target whose id was re-issued, plain tables) x 1 symbolic operation out of 8 kinds: creation with target (ids / values), Relations.Set, Relations.Exchange, Builder.Add (ids / values), NewBatch(Q) with target, batch SetRelation (4 API variants), Relations.ExchangeBatch(Q), relation calls naming the wrong component (every component incl. ID 0; Get / Set / Query.Relation), plain Exchange (relation swap/removal); the target ranges over zero, every alive handle, every dead handle, the dead handle of a re-issued id and the entity itself; legality and effect per the documentation; 3 configurations (thorough 24)",
 		Outside: "two or more relation operations in a row beyond the scripted prefixes (C01's two-step harness covers pairs of single-entity operations); more than 10 entities",
 	},
 	{
 		ID: "C06",
 		Harnesses: []H{{Pkg: "ecs", Fn: "HC06_TargetDeath"}, {Pkg: "ecs", Fn: "HC06_TargetDeath", Tags: "tiny", Tier: "thorough"}},
-		Conform: []H{{Pkg: "ecs", Fn: "HSmoke"}, {Pkg: "ecs", Fn: "HConf_Prefixes"}},
+		Conform: stdConform,
 		Bounds:  "8 prefixes (two parents with children, dead target with non-empty table, retired table, two relation types, dead target with re-issued id, self-targeting entity, alive parent with active-but-empty child table, Reset over populated relation tables followed by new parents) x 1 (thorough: 2) symbolic operations out of RemoveEntity(any alive), Batch.RemoveEntities (All / mask / relation filter with any target), creation of a child (ids only or with values) for zero or any alive parent, Relations.Set, Reset, batch SetRelation; after every step the structural invariant (free list without duplicates, target map = active tables, storage beyond len zero, retired tables empty and zeroed), at the end all observables vs the model incl. zero-initialised components and relation queries for every target; 3 configurations (thorough 24)",
 		Outside: "more than 2 operations after the prefix; more than 10 entities",
 	},
@@ -83,7 +87,7 @@ var props = []Prop{
 		ID: "C07",
 		Harnesses: []H{{Pkg: "ecs", Fn: "HC07_Before"}, {Pkg: "ecs", Fn: "HC07_After"}, {Pkg: "ecs", Fn: "HC07_Unregister", W: 4},
 			{Pkg: "ecs", Fn: "HC07_Before", Tags: "tiny", Tier: "thorough"}, {Pkg: "ecs", Fn: "HC07_After", Tags: "tiny", Tier: "thorough"}},
-		Conform: []H{{Pkg: "ecs", Fn: "HSmoke"}, {Pkg: "ecs", Fn: "HConf_Prefixes"}},
+		Conform: stdConform,
 		Bounds:  "filter registered before any table exists (relation targets = handles issued later) or after one of 11 prefixes (incl. retired tables, dead targets, re-issued target ids, self-target, Reset over populated relation tables); 9 filter kinds (All, mask, without, exclusive, relation filters with any issued/zero/future target, and a relation filter whose component filter also matches non-relation tables); then 1 operation out of 10: table creation, relation-table creation, RemoveEntity, Relations.Set, Reset, Reset + re-issue + new child, and Batch.RemoveEntities / Batch.Exchange(Q) / Batch.SetRelation(Q) THROUGH the registered filter; oracle: registered vs original filter on the same world (same entities, same Count), model for batch effects, cache clauses of the structural invariant; Unregister/double register/use after unregister on 3 registrations; 2 configurations (thorough 24)",
 		Outside: "more than one operation after registration beyond the prefixes; logic-combination filters (the cache only calls Matches, decided in C04)",
 	},
@@ -91,70 +95,70 @@ var props = []Prop{
 		ID: "C09",
 		Harnesses: []H{{Pkg: "ecs", Fn: "HC09_Depth", W: 4}, {Pkg: "ecs", Fn: "HC09_Depth", W: 4, Tags: "tiny"}, {Pkg: "ecs", Fn: "HC09_Sweep"}, {Pkg: "ecs", Fn: "HC09_Listener", W: 4},
 			{Pkg: "ecs", Fn: "HC09_Sweep", Tags: "tiny", Tier: "thorough"}, {Pkg: "generic", Fn: "HC09_Generic", W: 4}},
-		Conform: []H{{Pkg: "ecs", Fn: "HSmoke"}},
+		Conform: stdConform,
 		Bounds:  "nesting depths 1,2,3,limit-1,limit (256 / 64 in tiny) and limit+1 (must panic), three closing orders (FIFO, LIFO, mixed exhaustion/Close), re-opening 1 / depth / limit queries afterwards; sweep: 34 structural entry points (World, Builder ids/values with and without target, Batch and Relations incl. every Q variant, calls whose filter matches nothing, type registration, LoadEntities, Reset) x 4 lock sources (plain query fresh/advanced, registered filter, batch-result query, nested depth 2 with either closing order) x 5 ways of ending a query (Next exhaustion, Step beyond the end, Close, Close after Count, Close after EntityAt), and inside removal listeners (single and batch removal): refused with exactly the documented message, observables + structural digest unchanged, lock still held, success after release; generic entry points (HC09_Generic): 20 calls of Map1 / Map2 / relation-aware Map2 / Map / Exchange (New, NewWith, NewBatch(Q), Add, Assign, Remove, AddBatch(Q), RemoveBatch(Q), RemoveEntities, SetRelation(Batch), Exchange, ExchangeBatch) refused while a generic query (plain or registered, fresh or advanced) is open and succeeding after release by exhaustion / Close / Count+Close",
 		Outside: "entry points reached only through generic arities > 2 (they delegate to the swept ID-based calls); lock sources nested deeper than 2 in the sweep (depth harness covers nesting up to the limit)",
 	},
 	{
 		ID: "C10",
 		Harnesses: []H{{Pkg: "ecs", Fn: "HC10_Illegal"}, {Pkg: "ecs", Fn: "HC10_Illegal", Tags: "tiny", Tier: "thorough"}},
-		Conform: []H{{Pkg: "ecs", Fn: "HSmoke"}, {Pkg: "ecs", Fn: "HConf_Prefixes"}},
+		Conform: stdConform,
 		Bounds:  "6 prefixes x 1 (thorough: 2) failed call(s) out of 9 illegal classes with all arguments symbolic and constrained only to be illegal per the documentation: Add/Remove/Exchange (dead or recycled entity, present/absent component, second relation), Assign (incl. no components), every accessor/mutator on a removed entity, Set / write through Get on a missing component, creation with two relations / target without relation / relation not among the components / non-relation named as relation (ids and values), duplicate ids (NewEntity, NewEntityWith, Add, Remove, Exchange), non-positive batch counts (fully symbolic count <= 0, NewBatch and NewBatchQ), Relations.Set and Relations.Exchange / Builder.Add with target (dead entity, wrong component, dead target, no effect); asserted: panic, then all observables = model, structural invariant, pool/index/row digest unchanged, world unlocked, and two further legal operations behave per the model; 2 configurations (thorough 24). Out-of-range query indices and non-positive steps are decided in C03, filter double (un)registration in C07, resources in C20, type limit in C16, LoadEntities in C17.",
 		Outside: "empty graph nodes / tables left behind by a failed graph walk (visible only through Stats().Nodes, not an observable named by the property); sequences of more than two failed calls",
 	},
 	{
 		ID: "C11",
 		Harnesses: []H{{Pkg: "ecs", Fn: "HC11_Events"}, {Pkg: "ecs", Fn: "HC11_Events", Tags: "tiny", Tier: "thorough"}},
-		Conform: []H{{Pkg: "ecs", Fn: "HSmoke"}, {Pkg: "ecs", Fn: "HConf_Prefixes"}},
+		Conform: stdConform,
 		Bounds:  "8 prefixes x 1 operation with a recording listener subscribed to everything: the 11 single-entity operation kinds with every legal argument, the 5 batch families incl. Q variants (events only at close/exhaustion), removal / retarget / Reset family, and no-op calls (Exchange/Add/Remove without components, Relations.Set to the current target); per event: type bits, Added/Removed masks, AddedIDs/RemovedIDs as sets, Old/NewRelation nil-ness and value, OldTarget, and what the world shows at delivery (lock state, liveness, Mask, target: after-state, or before-state for removals); exactly one event per changed entity as a multiset; 2 configurations (thorough 24)",
 		Outside: "order of events inside one batch call; more than one operation after installing the listener",
 	},
 	{
 		ID: "C17",
 		Harnesses: []H{{Pkg: "ecs", Fn: "HC17_DumpLoad"}, {Pkg: "ecs", Fn: "HC17_Refuse", W: 2}},
-		Conform: []H{{Pkg: "ecs", Fn: "HSmoke"}},
+		Conform: stdConform,
 		Bounds:  "source history: 3 or 5 creations followed by up to 2 (thorough 3) removals of symbolically chosen alive entities, each optionally followed by a re-creation (free-list depth 0..3, mixed generations); 6 triples of capacity increments (1..4) for source and the two receivers; receiver 1 = fresh world loaded at once (Alive of every issued handle, dump(loaded) == dump field by field incl. the Alive sequence); then the source is optionally mutated (removal / creation); receiver 2 = fresh or reset world loaded later from the same dump object (snapshot semantics); then a common suffix of 2 (thorough 3) creations/removals on all worlds with identical handles and Alive answers, final dumps equal (Alive as a set); refusal for worlds with entities, with recycled ids but no reset, locked; acceptance after Reset",
 		Outside: "the JSON clause (encoding/json is not encodable by the engine); dumps not produced by DumpEntities; more than 8 handles",
 	},
 	{
 		ID: "C15",
 		Harnesses: []H{{Pkg: "ecs", Fn: "HC15_Reset"}, {Pkg: "ecs", Fn: "HC15_Reset", Tags: "tiny", Tier: "thorough"}},
-		Conform: []H{{Pkg: "ecs", Fn: "HSmoke"}, {Pkg: "ecs", Fn: "HConf_Prefixes"}},
+		Conform: stdConform,
 		Bounds:  "a filter out of 5 (mask, relation component, relation filter with zero target / with the first handle a world issues, relation filter over a non-relation component filter) registered before the history; 6 prefixes (populated tables, two parents, dead target, retired table, recycled ids, re-issued target id), resources added; right before the reset optionally: every entity removed one by one, or a query opened and closed; then Reset (thorough: two cycles): unlocked, no resources, no entities, registered filter = original filter, invariant; then 2 operations with a recording listener: behaviour must be that of a fresh world, i.e. handles {1,0},{2,0},.. with last-removed-first re-use (handle-sequence model), events per the C11 oracle, observables and queries (plain and registered) per the model, resource ids still valid; 2 configurations (thorough 24)",
 		Outside: "more than 2 operations after the reset; more than two reset cycles",
 	},
 	{
 		ID: "C20",
 		Harnesses: []H{{Pkg: "generic", Fn: "HC20_Resources"}, {Pkg: "generic", Fn: "HC20_Resources", Tags: "tiny", Tier: "thorough"}},
-		Conform: []H{{Pkg: "ecs", Fn: "HSmoke"}},
+		Conform: stdConform,
 		Bounds:  "4 resource types placed at IDs 0, 1 or 17, 63 or 64 (31/32 in tiny), and the last ID (255 / 63) by filler registrations that cross every 16-ID chunk and 64-bit word; symbolic sequences of 2 (thorough 4) operations out of: Add (World.Resources, generic.Resource, ecs.AddResource), Remove (World.Resources, generic.Resource), registration of a further type, entity creation + component registration, entity removal, lock/unlock by a query, Reset; after every step Has/Get of every registered type through all three APIs against the model (exact pointer identity, nil when absent), panics exactly for duplicate Add / missing Remove, no component ids consumed",
 		Outside: "more than 4 distinct resource types holding values at once (all 256 ids are registered by the fillers); sequences longer than 4 operations",
 	},
 	{
 		ID: "C16",
 		Harnesses: []H{{Pkg: "ecs", Fn: "HC16_Layouts"}, {Pkg: "ecs", Fn: "HC16_Layouts", Tags: "tiny"}, {Pkg: "ecs", Fn: "HC16_Shapes", W: 2}, {Pkg: "ecs", Fn: "HC16_Shapes", W: 2, Tags: "tiny"}},
-		Conform: []H{{Pkg: "ecs", Fn: "HSmoke"}},
+		Conform: stdConform,
 		Bounds:  "m types registered before the first tables exist and n in total, (m, n) over all pairs from the boundary set {0,1,15,16,17,63,64,65,128,192,239,240,241,255,256} (tiny: {0,1,15,16,17,31,32,33,47,48,49,62,63,64}) with m <= n; a component id j from the same set (j < n) is used on a table created before its registration and on tables created after it: Has/Get on old tables (out-of-block unsafe reads are violations), NewEntity, write/read through Get, Add to / Remove from entities of old tables, query; registry: dense ids in order, ComponentIDs/ComponentInfo consistent, same type same id, unregistered id reported false; at the limit one more registration panics and changes nothing; shapes: Relation embedded first / later / as named field / by pointer / alone / non-struct, resource registry independent, registration refused under lock is rolled back completely; capacity increments 1..2",
 		Outside: "values of m, n, j between the boundary values (the chunk arithmetic is piecewise uniform between multiples of 16 and 64)",
 	},
 	{
 		ID: "C18",
 		Harnesses: append(hs("generic", false, 2, "HC18_Arity1", "HC18_Arity2", "HC18_Arity3", "HC18_Arity4", "HC18_Arity5", "HC18_Arity6", "HC18_Arity7", "HC18_Arity8", "HC18_Arity9", "HC18_Arity10", "HC18_Arity11", "HC18_Arity12", "HC18_MapExchange", "HC18_TwoQueries"), H{Pkg: "generic", Fn: "HC18_Builders"}, H{Pkg: "generic", Fn: "HC18_Builders", Tags: "tiny", Tier: "thorough"}, H{Pkg: "generic", Fn: "HC18_Arity12", Tags: "tiny", W: 2}),
-		Conform: []H{{Pkg: "ecs", Fn: "HSmoke"}},
+		Conform: stdConform,
 		Bounds:  "every arity 1..12 (harnesses generated from one template like the library): MapN.New / NewWith (symbolic values) / Assign / Add / Remove / NewBatch / NewBatchQ / AddBatchQ / RemoveBatch and FilterN.Query (unregistered and registered) - every Get position is compared by pointer identity with World.Get of the declared component, selections with the equivalent core filter; Optional at a symbolically chosen position (nil for the absent component); component ids offset by 0 / 14 / 60 fillers (chunk and word boundaries); builder sequences: 3 (thorough 4) symbolic steps out of With / Without / Optional / Exclusive / WithRelation (open or fixed target) / use (with or without runtime target) / register-unregister on Filter0, Filter1, Filter2 followed by a final use, against a set-theoretic model of the configuration at query time on a 9-entity world; Map[T], relation-aware Map2 and Exchange against the core calls; two simultaneously open queries with different runtime targets (known finding)",
 		Outside: "arity 0 beyond Filter0/Query0 in the builder harness; builder sequences longer than 4 steps; generic.Resource is decided in C20",
 	},
 	{
 		ID: "C19",
 		Harnesses: []H{{Pkg: "ecs", Fn: "HC19_Isolation"}, {Pkg: "ecs", Fn: "HC19_Isolation", Tags: "tiny", Tier: "thorough"}},
-		Conform: []H{{Pkg: "ecs", Fn: "HSmoke"}},
+		Conform: stdConform,
 		Bounds:  "two worlds in one heap (same types registered in opposite order, different capacity increments), 2 (thorough 5) prefixes on world 1, one operation on world 1 out of the single-entity (11 kinds), batch (5), removal/retarget (6) families and a query/cache/registration/resource/Stats bundle, with every legal argument; then a fixed sequence on world 2; decided per path: the set of blocks written by the operations on one world is disjoint from everything reachable from the other world (pointers, slices, interfaces, maps, closures, reflect values) and contains no package-level variable; both worlds' observables stay equal to their models. A violation is replayed natively with two goroutines driving their own worlds under the race detector.",
 		Outside: "goroutine schedules are not enumerated: footprint disjointness implies race freedom and independence for one-goroutine-per-world programs under every schedule; shared state inside the Go runtime (allocator, reflect type cache) is trusted",
 	},
 	{
 		ID: "C13",
 		Harnesses: []H{{Pkg: "ecs", Fn: "HC13_Determinism", MapOrder: true}, {Pkg: "ecs", Fn: "HC13_Determinism", MapOrder: true, Tags: "tiny", Tier: "thorough"}},
-		Conform: []H{{Pkg: "ecs", Fn: "HSmoke"}},
+		Conform: stdConform,
 		Census:  true,
 		Bounds:  "self-composition: two freshly created worlds (recording listeners and a registered filter installed) receive the same prefix (3, thorough 6) and the same 1 (thorough 2) operation(s) out of 9 kinds (creation, creation with target, removal, exchange, retarget, batch removal by filter, batch creation, Reset, batch exchange) with arguments picked once; handles, event sequences, query iteration order for 6 filters (plain and registered) and entity dumps must be equal in both worlds; in the engine every range over a map picks its next entry by a solver-chosen index, independently in the two worlds, so a dependence on map order yields a concrete witness order (replayed natively 50 times, Go randomises map iteration); the SSA census of map-range sites, pointer-to-integer conversions, go/select statements and time/rand callees in the four library packages is reported in the evidence",
 		Outside: "garbage-collection timing and cross-process effects other than map iteration order (the engine has no collector and one process); ordering by address is covered only by the census (no pointer-to-integer conversion exists in the library)",
@@ -162,7 +166,7 @@ var props = []Prop{
 	{
 		ID: "C14",
 		Harnesses: []H{{Pkg: "ecs", Fn: "HC14_Pointers"}, {Pkg: "ecs", Fn: "HC14_Pointers", Tags: "tiny", Tier: "thorough"}},
-		Conform: []H{{Pkg: "ecs", Fn: "HSmoke"}},
+		Conform: stdConform,
 		Bounds:  "REDUCED SCOPE: necessary storage-discipline conditions, not GC schedules. A world with pointer-carrying components in tables [P], [A,P] and a relation table, then 2 (thorough 3) symbolic operations out of 12: creation (growth), write through Get, Set, Assign, move by add/remove of other components, removal of the component, removal of entities (swap-remove), batch move, relation move, Reset, batch removal, children with pointer components; decided in the engine for every path: (N1/N2) every pointer-carrying value written by the library - by typed stores, raw byte copies, reflect.Copy - lands in memory whose allocation type has a pointer word at that offset (what the collector scans), no raw copy cuts a pointer, (N3) storage beyond a table's length and all storage of retired / reset tables is zero, components keep the exact pointer last written and the referent's value; 2 configurations (thorough 24). Native replay of a counterexample additionally sets finalizers and forces collections: referents of live components must survive, all others must be collected.",
 		Outside: "write barriers, concurrent marking, escape analysis and GC timing (properties of the Go runtime and compiler, not present at go/ssa level); transient states inside one operation (N4 of the design: ordering of zeroing and copying between safepoints) are not checked",
 	},
